@@ -66,7 +66,7 @@ PROPS = {
     },
     'C10': {
         'verus': [('local', '*')],
-        'kani': ['local_parent_guard_scope', 'no_local_parent_is_inert'],
+        'kani': ['local_parent_guard_scope', 'no_local_parent_is_inert', 'unsampled_scope_shadows'],
         'assumptions': [IDS_NONZERO, NOW, STD, 'guards are !Send (type level: they hold an Rc) so a scope cannot leave its thread'],
     },
     'C12': {
@@ -100,18 +100,18 @@ PROPS = {
     },
     'C05': {
         'verus': [('local', ['SpanLine::new', 'SpanLine::start_span', 'SpanLine::add_event', 'SpanLine::add_properties', 'SpanLine::with_properties', 'SpanLine::current_collect_token'])],
-        'kani': ['root_lifecycle', 'finish_submits_sampled_items_only', 'issued_token_rewrites_parent_only', 'child_token_names_parent', 'push_child_spans_direct', 'add_event_handle', 'add_properties_handle'],
+        'kani': ['root_lifecycle', 'finish_submits_sampled_items_only', 'issued_token_rewrites_parent_only', 'child_token_names_parent', 'push_child_spans_direct', 'add_event_handle', 'add_properties_handle', 'unsampled_scope_shadows'],
         'assumptions': [KANI_ENV, API_SPLIT, 'composition: no command carrying an unsampled item ever enters a queue (submit filter), so by the collector oracle no record of an unsampled trace is produced'],
     },
     'C07': {
         'verus': [('local', '*'), ('spsc', ['Sender::send', 'Sender::force_send', 'Receiver::try_recv', 'bounded']), ('jaeger', '*')],
-        'kani': ['span_of_no_trace', 'noop_span_never_calls_closures', 'no_local_parent_is_inert', 'root_without_reporter_is_noop', 'empty_parent_set', 'root_lifecycle', 'cancel_root', 'local_parent_guard_scope', 'reentrant_property_closure', 'plain_property_closure', 'guard_beyond_scope_limit'],
+        'kani': ['span_of_no_trace', 'noop_span_never_calls_closures', 'no_local_parent_is_inert', 'root_without_reporter_is_noop', 'empty_parent_set', 'root_lifecycle', 'cancel_root', 'local_parent_guard_scope', 'reentrant_property_closure', 'plain_property_closure', 'guard_beyond_scope_limit', 'next_id_formula_and_distinct'],
         'assumptions': [KANI_ENV, 'panic-freedom is proved per function / per state class listed; calls issued from inside property closures: harness reentrant_property_closure (fails: known finding D6) with its control plain_property_closure; NOT covered: deadlock freedom in general, and calls made while thread-local storage is being torn down (Kani has no TLS destructors)',
                         'non-blocking: Sender::send / force_send terminate (Verus decreases) and take no lock'],
     },
     'C11': {
         'verus': [('local', ['SpanLine::current_collect_token', 'LocalSpanStack::current_collect_token', 'SpanContext::current_local_parent'])],
-        'kani': ['root_lifecycle', 'finish_submits_sampled_items_only', 'span_of_no_trace', 'empty_parent_set', 'local_parent_guard_scope', 'child_token_names_parent'],
+        'kani': ['root_lifecycle', 'finish_submits_sampled_items_only', 'span_of_no_trace', 'empty_parent_set', 'local_parent_guard_scope', 'child_token_names_parent', 'unsampled_scope_shadows'],
         'assumptions': [KANI_ENV, 'round trip through traceparent text: C12'],
     },
     'C16': {
